@@ -533,6 +533,9 @@ func checkC13(c *Ctx, w *World) {
 	// variable must change only through the specified transitions for them to mean what the property says
 	statusRules(m, c, func(string) string { return "C13.status" })
 
+	// ---- C13.switch-now: switchFromTo moves current inside the call exactly when it must
+	delayRules(m, c, func(string) string { return "C13.switch-now" })
+
 	// ---- C13.nonempty / C13.reject
 	checkNonEmpty(m)
 }
